@@ -22,14 +22,14 @@ Print Assumptions C15_string_escape.
    conditionals, field access, list and struct literals, strings, temperature sugar) is accepted by the parser and read
    back as the tree its concrete syntax denotes. *)
 Theorem C15_roundtrip_partial : forall e : texpr,
-  printable_t e = true -> parse (pp e) = Ok [reread e] [].
+  printable_t e = true -> parse (pp e) = Ok [StExpr (reread e)] [].
 Proof. exact echo_roundtrip. Qed.
 Print Assumptions C15_roundtrip_partial.
 
 (* ... and for expressions without temperature sugar and digit separators that tree is exactly
    the tree the expression was elaborated from: the echo means the same as the input. *)
 Theorem C15_roundtrip_exact : forall e : texpr,
-  printable_t e = true -> exact_t e = true -> parse (pp e) = Ok [erase e] [].
+  printable_t e = true -> exact_t e = true -> parse (pp e) = Ok [StExpr (erase e)] [].
 Proof. exact echo_roundtrip_exact. Qed.
 Print Assumptions C15_roundtrip_exact.
 
@@ -38,7 +38,7 @@ Print Assumptions C15_roundtrip_exact.
    Partial: expressions without temperature sugar, digit separators and negative literals. *)
 Theorem C15_fixed_point_partial : forall (is_unit is_fn : str -> bool) (e : texpr),
   printable_t e = true -> exact_t e = true -> consistent is_unit is_fn e = true ->
-  exists u, parse (pp e) = Ok [u] [] /\ pp (lift is_unit is_fn u) = pp e.
+  exists u, parse (pp e) = Ok [StExpr u] [] /\ pp (lift is_unit is_fn u) = pp e.
 Proof. exact echo_fixed_point. Qed.
 Print Assumptions C15_fixed_point_partial.
 
@@ -50,7 +50,7 @@ Print Assumptions C15_fixed_point_partial.
    implementation by the echo oracle. *)
 Definition C15_full : Prop :=
   forall e : texpr, printable_t e = true ->
-  exists u, parse (pp e) = Ok [u] [] /\ forall e', erase e' = u -> pp e' = pp e.
+  exists u, parse (pp e) = Ok [StExpr u] [] /\ forall e', erase e' = u -> pp e' = pp e.
 
 (* The excluded class is real: the printer drops the parentheses of a sum (product) on the
    right, so the echo is read back re-associated.  The values agree in exact arithmetic, the
@@ -60,7 +60,7 @@ Definition C15_full : Prop :=
 Definition x_ (c : N) : texpr := XIdent [c].
 Theorem C15_reassociation_refuted :
   exists e, printable_t e = false
-    /\ parse (pp e) = Ok [EBin Add (EBin Add (EIdent [97]) (EIdent [98])) (EIdent [99])]%N []
+    /\ parse (pp e) = Ok [StExpr (EBin Add (EBin Add (EIdent [97]) (EIdent [98])) (EIdent [99]))]%N []
     /\ erase e = EBin Add (EIdent [97]) (EBin Add (EIdent [98]) (EIdent [99]))%N.
 Proof. exists (XBin Add (x_ 97) (XBin Add (x_ 98) (x_ 99))). vm_compute. repeat split; reflexivity. Qed.
 Print Assumptions C15_reassociation_refuted.
@@ -76,8 +76,8 @@ Example C15_ex_conditional_operands :
   let e4 := XBin ConvertTo (n_ 49) (XBin ConvertTo (x_ 112) (x_ 113)) in
   printable_t e1 = true /\ exact_t e1 = true
   /\ pp e1 = [TNumber [49]; TArrow; TLParen; TIf; TTrue; TThen; TIdent [112]; TElse; TIdent [113]; TRParen]%N
-  /\ parse (pp e1) = Ok [erase e1] [] /\ parse (pp e2) = Ok [erase e2] []
-  /\ parse (pp e3) = Ok [erase e3] [] /\ parse (pp e4) = Ok [erase e4] [].
+  /\ parse (pp e1) = Ok [StExpr (erase e1)] [] /\ parse (pp e2) = Ok [StExpr (erase e2)] []
+  /\ parse (pp e3) = Ok [StExpr (erase e3)] [] /\ parse (pp e4) = Ok [StExpr (erase e4)] [].
 Proof. vm_compute. repeat split; reflexivity. Qed.
 
 (* -from_celsius(5) is echoed in call syntax, 7^(-1) with parentheses, from_celsius(5) alone as `5 °C` *)
@@ -86,7 +86,7 @@ Example C15_ex_sugar_and_negative_exponent :
   pp (XNeg fc) = [TMinus; TIdent n_from_celsius; TLParen; TNumber [53]; TRParen]%N
   /\ pp fc = [TNumber [53]; TIdent deg_c]%N
   /\ printable_t (XNeg fc) = true
-  /\ parse (pp (XNeg fc)) = Ok [EUn Negate (ECall (EIdent n_from_celsius) [EScalar [53]%N])] []
+  /\ parse (pp (XNeg fc)) = Ok [StExpr (EUn Negate (ECall (EIdent n_from_celsius) [EScalar [53]%N]))] []
   /\ pp (XBin Power (n_ 55) (XScalar true [49]%N))
      = [TNumber [55]; TPower; TLParen; TMinus; TNumber [49]; TRParen]%N.
 Proof. vm_compute. repeat split; reflexivity. Qed.
@@ -97,7 +97,7 @@ Example C15_ex_struct_list :
   printable_t e = true /\ exact_t e = true
   /\ pp e = [TIdent [80; 116]; TLCurly; TIdent [120]; TColon; TLBracket; TNumber [49]; TComma; TIdent [97]; TPlus;
             TIdent [98]; TRBracket; TComma; TIdent [121]; TColon; TLBracket; TRBracket; TRCurly; TPeriod; TIdent [120]]
-  /\ parse (pp e) = Ok [erase e] [].
+  /\ parse (pp e) = Ok [StExpr (erase e)] [].
 Proof. vm_compute. repeat split; reflexivity. Qed.
 
 (* the hypotheses of the fixed-point theorem are satisfiable: `m` is a unit, `f` a function *)
